@@ -433,6 +433,28 @@ def MaybeV.toStr (h : Heap) (m : MaybeV) : Option String :=
       | .str hx => Option.some hx
       | r => fmtV h 0 r
 
+/-! ### inventory the model assumes (closed against the regenerated `Gen/MaybeInventory.lean` in `Props/C01.lean`) -/
+
+/-- every method of `someDef[T]` — each one is modelled above and exercised by the harness -/
+def someDefMethodNames : List String :=
+  ["Just", "Or", "Clone", "FlatMap", "ToString", "ToPtr", "ToMaybe"] ++ allConversions ++
+  ["Let", "Unwrap", "UnwrapInterface", "IsPresent", "IsNil", "IsValid", "IsPtr", "Type", "Kind", "IsType", "IsKind"]
+
+/-- the bodies of the `noneDef` overrides (each is a single `return`), as the `none` branches above assume them -/
+def noneBodies : List (String × String) :=
+  [("Or", "or"), ("CloneTo", "None"), ("Clone", "None"), ("ToString", "\"<nil>\""), ("ToPtr", "nil"), ("ToMaybe", "self"),
+   ("ToFloat64", "zero,ErrConversionNil"), ("ToFloat32", "zero,ErrConversionNil"), ("ToInt", "zero,ErrConversionNil"),
+   ("ToInt32", "zero,ErrConversionNil"), ("ToInt64", "zero,ErrConversionNil"), ("ToBool", "zero,ErrConversionNil"),
+   ("Let", "empty"), ("Unwrap", "nil"), ("UnwrapInterface", "nil"), ("IsPresent", "zero"), ("IsNil", "true"),
+   ("IsPtr", "zero"), ("Type", "reflect.TypeOf(nil)"), ("Kind", "reflect.Invalid")]
+
+/-- a conversion entry of the regenerated inventory is fine when it starts with the nil guard returning
+    `(zero, ErrConversionNil)` and mentions `ErrConversionNil` nowhere else, or is a one-line delegation to such a one -/
+def convEntryOK (e : String × String × Nat × String) : Bool :=
+  (e.2.1 == "zero,ErrConversionNil" && e.2.2.1 == 1) || (e.2.1 == "none" && e.2.2.1 == 0 && allConversions.contains e.2.2.2)
+
+def sameSet (a b : List String) : Bool := a.all b.contains && b.all a.contains
+
 /-! ### every observer, as one function (what `handle` executes and what `C01_total` quantifies over) -/
 
 /-- `Just(in)` as a method: ignores its receiver (promoted unchanged to `None`) -/
